@@ -105,6 +105,13 @@ class NpMixin:
                 return z3.IntVal(v) if isinstance(dim, int) and v <= dim else z3.simplify(z3.If(d < v, d, z3.IntVal(v)))
             if self.spec:
                 return v
+            if self.proved_quick(st, v < 0):
+                w = d + v  # python: a negative bound counts from the end
+                g = simp_bool(w >= 0)
+                if g is not True:
+                    self.emit(st, "bounds", "L%d" % n.lineno, g, n, "slice bound %s (from the end) within [0,%s]" % (v, dim))
+                    st.assume(g)
+                return w
             if self.opt("clamp_slices", False):
                 w = z3.If(v < 0, v + d, v)
                 return z3.simplify(z3.If(w < 0, z3.IntVal(0), z3.If(w > d, d, w)))
